@@ -18,6 +18,30 @@ package core
 //@   ensures sibling [C20]: label.Name == "..." && label.PackageName != "" && that.PackageName != label.PackageName && \
 //@      !hasPrefix(that.PackageName, label.PackageName + "/") ==> !result
 
+// ParseBuildLabelParts, the `//pkg/...` form: the package is what stands between `//` and `/...`, with only
+// trailing SLASHES removed (`//...` is the root) — a package whose name ends in a dot keeps it, so the printed form
+// of such a pattern parses back to itself.
+//@ assume func validatePackageName
+//@   pure
+//@ assume func validateTargetName
+//@   pure
+//@ assume func parseBuildLabelSubrepo
+//@ func ParseBuildLabelParts
+//@   opt nopanic=off
+//@   callsite strings.TrimRight only_trailing_slashes_of_the_package [C20]: arg_cutset == "/" && hasSuffix(target, "/...") && \
+//@      arg_s == substr(target, 2, len(target) - 3)
+//
+// expandOriginalPseudoTarget: `//p/...` (and `//...`) on the command line expands to the targets of exactly the
+// packages at or under p — decided by the same Includes relation — and `:all` to the targets of its own package.
+//@ func (BuildState).expandOriginalPseudoTarget
+//@   requires state != nil && state.Graph != nil
+//@   opt nopanic=off
+//@   opt precall=off
+//@   callsite (BuildLabel).Includes trackresult included bool: result
+//@   callsite (BuildLabel).Includes asked_about_the_package_itself [C20]: arg_recv == label && arg_that.PackageName == name && \
+//@      arg_that.Name == "" && arg_that.Subrepo == ""
+//@   callsite addPackage only_packages_the_pattern_selects [C20]: label.Name == "all" || (called("(BuildLabel).Includes") && included)
+//
 //@ func (BuildLabel).Matches
 //@   requires rootalias: label.PackageName != "."
 //@   modifies nothing
@@ -331,6 +355,64 @@ package core
 //@   opt panics=allowed
 //@   pure
 
+// Each $(...) form asks for exactly its own kind of expansion: $(exe) and $(out_exe) want a RUNNABLE target with a
+// SINGLE output, $(location) a single output, the plural forms and $(dir)/$(hash) allow several (C37).
+//@ func replaceSequencesInternal.lit#2
+//@   opt nopanic=off
+//@   opt panics=allowed
+//@   opt precall=off
+//@   callsite replaceSequence location_form [C37]: arg_runnable == false && arg_multiple == false && arg_dir == false && arg_outPrefix == false && arg_hash == false && arg_test == test && arg_target == target
+//@ func replaceSequencesInternal.lit#3
+//@   opt nopanic=off
+//@   opt panics=allowed
+//@   opt precall=off
+//@   callsite replaceSequence locations_form [C37]: arg_runnable == false && arg_multiple == true && arg_dir == false && arg_outPrefix == false && arg_hash == false && arg_test == test && arg_target == target
+//@ func replaceSequencesInternal.lit#4
+//@   opt nopanic=off
+//@   opt panics=allowed
+//@   opt precall=off
+//@   callsite replaceSequence exe_form [C37]: arg_runnable == true && arg_multiple == false && arg_dir == false && arg_outPrefix == false && arg_hash == false && arg_test == test && arg_target == target
+//@ func replaceSequencesInternal.lit#5
+//@   opt nopanic=off
+//@   opt panics=allowed
+//@   opt precall=off
+//@   callsite replaceSequence out_location_form [C37]: arg_runnable == false && arg_multiple == false && arg_dir == false && arg_outPrefix == true && arg_hash == false && arg_test == test && arg_target == target
+//@ func replaceSequencesInternal.lit#6
+//@   opt nopanic=off
+//@   opt panics=allowed
+//@   opt precall=off
+//@   callsite replaceSequence out_locations_form [C37]: arg_runnable == false && arg_multiple == true && arg_dir == false && arg_outPrefix == true && arg_hash == false && arg_test == test && arg_target == target
+//@ func replaceSequencesInternal.lit#7
+//@   opt nopanic=off
+//@   opt panics=allowed
+//@   opt precall=off
+//@   callsite replaceSequence out_exe_form [C37]: arg_runnable == true && arg_multiple == false && arg_dir == false && arg_outPrefix == true && arg_hash == false && arg_test == test && arg_target == target
+//@ func replaceSequencesInternal.lit#8
+//@   opt nopanic=off
+//@   opt panics=allowed
+//@   opt precall=off
+//@   callsite replaceSequence dir_form [C37]: arg_runnable == false && arg_multiple == true && arg_dir == true && arg_outPrefix == false && arg_hash == false && arg_test == test && arg_target == target
+//@ func replaceSequencesInternal.lit#9
+//@   opt nopanic=off
+//@   opt panics=allowed
+//@   opt precall=off
+//@   callsite replaceSequence out_dir_form [C37]: arg_runnable == false && arg_multiple == true && arg_dir == true && arg_outPrefix == true && arg_hash == false && arg_test == test && arg_target == target
+//@ func replaceSequencesInternal.lit#10
+//@   opt nopanic=off
+//@   opt panics=allowed
+//@   opt precall=off
+//@   callsite replaceSequence hash_form [C37]: arg_runnable == false && arg_multiple == true && arg_dir == true && arg_outPrefix == false && arg_hash == true && arg_test == test && arg_target == target
+// replaceSequenceLabel: a target may name ITSELF (the very same label, subrepo included) or one of its dependencies;
+// what is expanded is that target / the first dependency found for the label, never another target of the same name.
+//@ func replaceSequenceLabel
+//@   requires target != nil
+//@   opt nopanic=off
+//@   opt panics=allowed
+//@   opt precall=off
+//@   callsite checkAndReplaceSequence itself_or_a_dependency [C37]: arg_target == target && \
+//@      ((arg_dep == target && label == old(target.Label) && !arg_tool) || (label != old(target.Label) && called("(BuildTarget).DependenciesFor")))
+//@   callsite (BuildTarget).DependenciesFor of_the_label_named [C37]: arg_label == label && arg_recv == target
+//
 // ---------------------------------------------------------------------------------------------
 // Command location expansions (C37)
 //
